@@ -29,6 +29,7 @@ def selects (f : From) (db rp : String) (p : RawPoint) : Bool :=
 A task that declares no database/retention policy cannot be enabled. -/
 def enabledAfter (t : String) (cur : Option TaskDef) : Op → Option TaskDef
   | .start d => if d.id = t ∧ d.dbrps ≠ [] then some d else cur
+  | .startfail _ => cur          -- a start that fails does not enable the task
   | .stop id => if id = t then none else cur
   | .delete id => if id = t then none else cur
   | .write _ _ _ => cur
@@ -47,6 +48,7 @@ def writeEvents (defaultRP t : String) : Option TaskDef → List Op → List WEv
   | cur, .write db rp pts :: rest =>
     pts.map (fun p => { enabled := cur, db := db, rp := writtenRP defaultRP rp, pt := p }) ++ writeEvents defaultRP t cur rest
   | cur, .start d :: rest => writeEvents defaultRP t (enabledAfter t cur (.start d)) rest
+  | cur, .startfail d :: rest => writeEvents defaultRP t (enabledAfter t cur (.startfail d)) rest
   | cur, .stop id :: rest => writeEvents defaultRP t (enabledAfter t cur (.stop id)) rest
   | cur, .delete id :: rest => writeEvents defaultRP t (enabledAfter t cur (.delete id)) rest
 
@@ -70,11 +72,12 @@ def writtenIds : List Op → List Nat
   | .write _ _ pts :: rest => pts.map (·.id) ++ writtenIds rest
   | _ :: rest => writtenIds rest
 
-/-- Well-formed histories: `start` only of an id that is not enabled. `run` = ids enabled so far. -/
+/-- Well-formed histories: `start` (successful or failing) only of an id that is not enabled. `run` = ids enabled so far. -/
 def wfFrom : List String → List Op → Bool
   | _, [] => true
   | run, .start d :: rest =>
     if d.dbrps.isEmpty then wfFrom run rest else !run.contains d.id && wfFrom (d.id :: run) rest
+  | run, .startfail d :: rest => !run.contains d.id && wfFrom run rest
   | run, .stop id :: rest => wfFrom (run.filter (· != id)) rest
   | run, .delete id :: rest => wfFrom (run.filter (· != id)) rest
   | run, .write _ _ _ :: rest => wfFrom run rest
@@ -86,6 +89,7 @@ instance (ops : List Op) : Decidable (WF ops) := by unfold WF; infer_instance
 /-- Does the operation concern task `t` (or is it a write)? Other tasks' start/stop/delete are "irrelevant". -/
 def relevant (t : String) : Op → Bool
   | .start d => d.id == t
+  | .startfail d => d.id == t
   | .stop id => id == t
   | .delete id => id == t
   | .write _ _ _ => true
